@@ -279,7 +279,7 @@ pub fn check(case: &Case, p: &mut Probe) -> Check {
 /// large matrices (more than 64 rows): sparse message part, tail = staircase, a permutation matrix
 /// with a few extra ones below it (invertible, dense path with row exchanges) or a permutation
 /// matrix with one column replaced by a copy of another (singular)
-fn large_strategy(_t: Tier) -> BoxedStrategy<Case> {
+pub fn large_strategy(_t: Tier) -> BoxedStrategy<Case> {
     // tall shapes (many checks, few message columns) and, one in four, flat shapes whose message is
     // several hundred bits long (beyond any block width of a batched or parallel product)
     prop_oneof![3 => (60usize..=140, 1usize..=70, 0..3u8, any::<u64>()), 1 => (2usize..=24, 200usize..=1100, 0..3u8, any::<u64>())]
